@@ -96,16 +96,20 @@ func r1(c *core.Ctx, s *c03.Sender) *envelope {
 	const rule = "R1.envelope"
 	info := s.Info
 	scope := s.Fn.Decl.Body
-	x := c03.NewXGraph(c.Program, s.LG, info, s.Fn.Decl, s.Fn.Pkg.PkgPath)
-	e := &envelope{s: s, x: x, rangePt: c03.XPoint{C: x.Root, P: s.RangePt}}
+	x := s.X
+	e := &envelope{s: s, x: x, rangePt: s.RangeX}
 	cmdPts := func(name string) []c03.XPoint {
 		return x.Points(func(n c03.XNode) bool { return x.XCmd(n, name) != nil })
 	}
 	ms, es, hs := cmdPts("multi"), cmdPts("exec"), cmdPts("hset")
 	if len(ms) != 1 || len(es) != 1 || len(hs) == 0 {
 		elsewhere := false
+		inlined := map[*ast.BlockStmt]bool{} // bodies that are part of the expansion
+		for _, pt := range x.Points(func(c03.XNode) bool { return true }) {
+			inlined[pt.C.G.Body] = true
+		}
 		for _, b := range c03.AllBodies(c) {
-			if b.Pkg.PkgPath != s.Fn.Pkg.PkgPath || b.Lit == s.Lit {
+			if b.Pkg.PkgPath != s.Fn.Pkg.PkgPath || b.Lit == s.Lit || b.Lit == nil && inlined[b.Decl.Body] || b.Lit != nil && inlined[b.Lit.Body] {
 				continue
 			}
 			core.Inspect(b.Root(), func(n ast.Node) bool {
@@ -349,11 +353,16 @@ func errorFatal(c *core.Ctx, s *c03.Sender, x *c03.XGraph) {
 		key := fmt.Sprintf("error-fatal#%d", k)
 		cx, node := pt.C, pt.P.Node()
 		info := cx.Info
-		fatalInside := false
+		fatalInside, lost := false, false
 		for _, call := range cfgq.ExecCalls(node) {
-			if site := c03.SendOf(info, call); site != nil && site.Fatal {
-				fatalInside = true
+			if site := c03.SendOf(info, call); site != nil {
+				fatalInside = fatalInside || site.Fatal
+				lost = lost || site.Lost
 			}
+		}
+		if lost {
+			c.Failf(rule, key, node.Pos(), "`%s` sends through a wrapper that carries on after a failed Send without reporting it: the batch is cleared and lastCommittedOffset advanced although the target never received it (commands lost on the next restart)", c.Src(node))
+			continue
 		}
 		if fatalInside {
 			c.Okf(rule, key, node.Pos(), "the forwarding wrapper ends the sender itself when Send fails")
@@ -440,7 +449,14 @@ func hsetArgs(c *core.Ctx, s *c03.Sender, e *envelope) {
 		case mentionsConst(c, info, scope, call.Args[2], "CheckpointRunId"):
 			role, want = "runid", "ds.runId"
 			okVal = leafIs(info, scope, call.Args[3], func(x ast.Expr) bool { return c03.FieldIs(info, x, c03.Syncer, "runId") })
-			unknownVal = !okVal && !core.MentionsField(info, call.Args[3], c03.Syncer, "id")
+			otherField := false // another field of the syncer (e.g. its id) is recognisably not the run id
+			ast.Inspect(call.Args[3], func(m ast.Node) bool {
+				if sel, ok := m.(*ast.SelectorExpr); ok && sel.Sel.Name != "runId" && c03.FieldIs(info, sel, c03.Syncer, sel.Sel.Name) {
+					otherField = true
+				}
+				return true
+			})
+			unknownVal = !okVal && !otherField
 		case mentionsConst(c, info, scope, call.Args[2], "CheckpointVersion"):
 			role, want = "version", "utils.FcvCheckpoint.CurrentVersion"
 			okVal = leafIs(info, scope, call.Args[3], func(x ast.Expr) bool { return pat.Expr("_u.FcvCheckpoint.CurrentVersion").Match(info, x, nil) != nil })
